@@ -14,7 +14,7 @@ import (
 )
 
 // C20 — stale-while-revalidate answers at once and revalidates once, within the timeout.
-func init() { register(&Check{ID: "C20", Run: runC20, ShardDepth: 3}) }
+func init() { register(&Check{ID: "C20", Run: runC20, ShardDepth: 3, LeaksMatter: true}) }
 
 func bubbleGoroutines() (n int, dump string) {
 	// the current goroutine's header names this execution's bubble
